@@ -463,6 +463,9 @@ struct Ctx<'a> {
     /// the last op made sozu rebuild the cluster's Maglev table with different inputs through a
     /// change to a member that is not eligible (removal, in-place weight update)
     rebuilt_by_ineligible: [bool; 2],
+    /// strict cases only: the affinity window of the cluster was kept open across a Maglev rebuild caused by an
+    /// ineligible member (the known finding); a key that moves in such a window gets the finding's own signature
+    window_crossed_rebuild: [bool; 2],
     excluded_known: u64,
     expected_events: Vec<(String, SocketAddr)>,
     selections: u64,
@@ -588,7 +591,7 @@ impl Ctx<'_> {
                 self.flags.affinity_repeat = true;
                 if *old != got && self.case.affinity {
                     fail!(
-                        format!("C12/affinity-moved:{}", POLICY_NAMES[pol as usize]),
+                        format!("C12/affinity-moved:{}{}", POLICY_NAMES[pol as usize], if self.window_crossed_rebuild[c] { ":after-rebuild-by-ineligible-member" } else { "" }),
                         "{} policy {}: key {:#x} went to {} and now goes to {} although the eligible set is unchanged: {:?}",
                         cluster_id(c),
                         POLICY_NAMES[pol as usize],
@@ -1135,6 +1138,9 @@ impl Ctx<'_> {
                 // "while the eligible set is unchanged": any change in between ends the affinity window
                 self.memo.retain(|(cc, _), _| *cc != c);
                 self.last_fp[c] = Some(fp);
+                self.window_crossed_rebuild[c] = false;
+            } else if rebuilt && self.model.clusters[c].policy == 5 && self.case.affinity && self.case.strict {
+                self.window_crossed_rebuild[c] = true;
             } else if rebuilt && self.model.clusters[c].policy == 5 && self.case.affinity && !self.case.strict {
                 // known finding C12/affinity-moved:maglev, excluded by construction: the Maglev
                 // table is built over all members, so rebuilding it after a change to an
@@ -1170,6 +1176,7 @@ pub fn check(case: &Case) -> CheckResult {
         memo: BTreeMap::new(),
         last_fp: [None, None],
         rebuilt_by_ineligible: [false, false],
+        window_crossed_rebuild: [false, false],
         excluded_known: 0,
         expected_events: vec![],
         selections: 0,
